@@ -261,7 +261,14 @@ class AsyncFIXConnection:
                 )
             if msg.msg_type == FMsg.LOGON:
                 self._connection_role = ConnectionRole.INITIATOR
+                socket_writer = self._socket_writer
                 await self._state_set(ConnectionState.LOGON_INITIAL_SENT)
+                if self._socket_writer is not socket_writer:
+                    # disconnected (and maybe connected again) while on_state_change()
+                    #  hook was running, this Logon belongs to the closed connection
+                    raise FIXConnectionError(
+                        "Connection has been closed, message was not sent"
+                    )
         else:
             if self._connection_role == ConnectionRole.INITIATOR:
                 if (
@@ -278,10 +285,6 @@ class AsyncFIXConnection:
                 "You must rend TestRequest() message via self.send_test_req() method in"
                 " order to get valid response handling"
             )
-
-        if self._socket_writer is None:
-            # disconnected while on_state_change() hook above was running
-            raise FIXConnectionError("Connection has been closed, message was not sent")
 
         encoded_msg = self._codec.encode(msg, self._session).encode("utf-8")
 
